@@ -210,9 +210,9 @@ Proof. exact decode_rgba_pixels_m_ok. Qed.
 Theorem C19_moded_raw_mode_independent : forall data w h fmt, 4 * (w * h) < 2 ^ 64 -> wfb data ->
   decode_rgba_pixels_m Checked data w h fmt = decode_rgba_pixels_m Wrapping data w h fmt.
 Proof. exact raw_moded_mode_independent. Qed.
-(* RGB5A3: the u16 multiplications and shifts of the decoder itself, all 65 536 values, both modes *)
-Theorem C19_moded_rgb5a3 : forall m v, v < 65536 -> decode_rgb5a3_pixel_m m v = Ok (decode_rgb5a3_pixel v).
-Proof. exact decode_rgb5a3_pixel_m_ok. Qed.
+(* RGB5A3: the u16 multiplications and shifts of the decoder itself, every value, both modes (by argument: masked fields) *)
+Theorem C19_moded_rgb5a3 : forall m v, decode_rgb5a3_pixel_m m v = Ok (decode_rgb5a3_pixel v).
+Proof. exact decode_rgb5a3_pixel_m_all. Qed.
 Theorem C19_moded_rgb5a3_decode : forall m data, wfb data -> lenN data < 2 ^ 64 -> rgb5a3_decode_m m data = rgb5a3_decode data.
 Proof. exact rgb5a3_decode_m_ok. Qed.
 (* decode_indexed: index * 4 and real_index + 4 *)
